@@ -62,8 +62,8 @@ def run(ctx):
             if not (isinstance(a, tuple) and Fn.path_of(a)[-1:] == [('f', 'state')]):
                 return False
         return True
-    g = eq_edges(rp, lambda a, b: is_state(a) and const_val(b) == CONTENT)
-    rep.check(r1, bool(g) and bool(sp) and not rp.must_pass(g, sp), 'reply-gate', 'Some(..) reachable only through state == HTTP_STATE_CONTENT (%d): %s' % (CONTENT, bool(g) and not rp.must_pass(g, sp)), rp.loc(sp[0]) if sp else '')
+    okg, dg = value_required_at(rp, sp, is_state, {CONTENT}, stable_fn=is_state)
+    rep.check(r1, okg, 'reply-gate', 'Some(..) only on path states with state == HTTP_STATE_CONTENT (%d): %s' % (CONTENT, dg), rp.loc(sp[0]) if sp else '')
     pc = rp.calls(r'^proto::http::http_parse$')
     ok = len(pc) == 1 and peel(rp.argv(pc[0][0], 1)) == ('param', 1)
     if ok:
